@@ -54,9 +54,9 @@ def ob_export(k: int, c0: int, c1: int, level: int, start: int, em: bool, strong
 def _export(k, c0, c1, level, start, em, strong, code, link, shape):
     sch = S["schema"]
     n = len(CH)
-    if not (1 <= k <= 2 and 0 <= c0 < n and 0 <= c1 < n and 0 <= shape < 4):
+    if not (0 <= k <= 2 and 0 <= c0 < n and 0 <= c1 < n and 0 <= shape < 4):
         return rt.SKIP
-    if k == 1 and c1 != 0:
+    if (k <= 1 and c1 != 0) or (k == 0 and c0 != 0):
         return rt.SKIP
     if not (1 <= level <= 6 and -1 <= start <= 3):
         return rt.SKIP                       # rendered into the tag text: formatting realises the value
@@ -74,7 +74,7 @@ def _export(k, c0, c1, level, start, em, strong, code, link, shape):
         return rt.SKIP
     if "shape" in P and shape != P["shape"]:
         return rt.SKIP
-    k, c0, c1, shape = rt.pick(k, 1, 2), rt.pick(c0, 0, n - 1), rt.pick(c1, 0, n - 1), rt.pick(shape, 0, 3)
+    k, c0, c1, shape = rt.pick(k, 0, 2), rt.pick(c0, 0, n - 1), rt.pick(c1, 0, n - 1), rt.pick(shape, 0, 3)
     em, strong, code, link = rt.pickb(em), rt.pickb(strong), rt.pickb(code), rt.pickb(link)
     s = mk(k, c0, c1)
     marks = []
@@ -87,9 +87,9 @@ def _export(k, c0, c1, level, start, em, strong, code, link, shape):
     if code:
         marks.append(sch.marks["code"].create())
     N = sch.nodes
-    t1 = sch.text(s, marks)
+    t1 = sch.text(s or "t", marks)             # k == 0: empty attribute strings (text cannot be empty)
     t2 = sch.text("z", marks[1:])           # shares a suffix of the marks: nesting must re-open in order
-    t3 = sch.text(s)
+    t3 = sch.text(s or "t")
     if shape == 0:
         body = [N["heading"].create({"level": level}, [t3]), N["paragraph"].create(None, [t1, t2, t3])]
     elif shape == 1:
@@ -237,7 +237,7 @@ def obligations(tier, seed):
             if shape == 0:
                 extra = [{"level": lv} for lv in ((1, 6) if tier == "quick" else range(1, 7))]
             if shape == 2:
-                extra = [{"start": st} for st in ((-1, 1, 3) if tier == "quick" else range(-1, 4))]
+                extra = [{"start": st} for st in ((0, 1, 3) if tier == "quick" else range(-1, 4))]
             for ex in extra:
                 obs.append({"name": "export/shape=%d/link=%s/%s" % (shape, link, "".join("%s=%s" % kv for kv in ex.items())),
                             "fn": "ob_export", "P": dict({"shape": shape, "link": link}, **ex), "timeout": T})
